@@ -176,3 +176,23 @@ package sm2
 //@ declassify acc == 0 : zero-key verdict
 //@ declassify cmp == -1 : range verdict (the result of the function)
 //@ public_result
+
+// ---------------------------------------------------------------------------------------------
+// Write-effect contracts (property C17): parameters not listed under `writes` are read-only;
+// `immutable` types are never written through a method receiver. Checked by `govc eff`.
+// ---------------------------------------------------------------------------------------------
+//@ func sm2.Sign#eff
+//@ writes rand
+//@ func sm2.SignZa#eff
+//@ writes rand
+//@ func sm2.SignHashed#eff
+//@ writes rand
+//@ func sm2.GenerateKey#eff
+//@ writes rand
+//@ func sm2.Verify#eff
+//@ func sm2.VerifyZa#eff
+//@ func sm2.VerifyHashed#eff
+//@ func sm2.ZA#eff
+//@ func sm2.DerivePublic#eff
+//@ func sm2.TestPrivateKey#eff
+//@ func sm2.CheckOnCurve#eff
